@@ -112,3 +112,126 @@ Proof.
   - now apply law_false_ok in K8.
   - apply law_lok; [exact K9 | exact Hc].
 Qed.
+
+(* ================= readings ================= *)
+Local Open Scope Z_scope.
+Lemma log_fold_proj mn mx : log_fold mn mx = (lf_neg mn mx, lf_emin mn mx, lf_emax mn mx).
+Proof. unfold lf_neg, lf_emin, lf_emax. destruct (log_fold mn mx) as [[n a] b]. reflexivity. Qed.
+
+(* the tick list L and the count n of level l for the admitted exponents e: for l >= 0 the ascending
+   list of the powers Base^(k 2^l) whose exponent is admitted (negated and reversed on a negative
+   domain) and its length; below level 0 the count is maxInt (the list: the model's minor ticks) *)
+Definition log_level_ok (b : Z) (e : logexp) (neg : bool) (emin emax : Q) (l : Z) (L : list Q) (n : Z) : Prop :=
+  if l <? 0 then n = MAXINT /\ L = log_ticks_at' b e neg emin emax false l
+  else exists P, StronglySorted Qlt P /\
+         (forall v, In v P <-> exists k, v = qpow b (k * 2 ^ l) /\ le_in_lo e <= k * 2 ^ l <= le_in_hi e) /\
+         L = (if neg then neg_rev P else P) /\ n = Z.of_nat (length P).
+Lemma log_level_ok_at b e neg emin emax l : 2 <= b -> le_in_lo e <= le_in_hi e + 1 ->
+  log_level_ok b e neg emin emax l (log_ticks_at' b e neg emin emax false l) (log_count e false l).
+Proof.
+  intros Hb He. unfold log_level_ok. destruct (l <? 0) eqn:S.
+  - split; [|reflexivity]. unfold log_count. now rewrite S.
+  - apply Z.ltb_ge in S. exists (log_ticks_pos b e emin emax false l). split; [now apply log_ticks_pos_ascending|].
+    split; [intro v; now apply log_ticks_pos_spec|]. split; [reflexivity|]. now apply log_count_is_length.
+Qed.
+Lemma log_level_ok_count b e neg emin emax l L n : 2 <= b -> le_in_lo e <= le_in_hi e + 1 ->
+  log_level_ok b e neg emin emax l L n -> n = log_count e false l.
+Proof.
+  intros Hb He H. pose proof (log_level_ok_at b e neg emin emax l Hb He) as H'. unfold log_level_ok in *.
+  destruct (l <? 0); [destruct H as [-> _]; destruct H' as [<- _]; reflexivity|].
+  destruct H as (P & S & I & _ & ->). destruct H' as (P' & S' & I' & _ & ->). f_equal.
+  apply sorted_same_length; [exact S | exact S' |]. intro v. rewrite I, I'. reflexivity.
+Qed.
+
+Lemma log_ticks_nonpos b mn mx o : o_max o <= 0 -> log_ticks b mn mx o = TR_none.
+Proof. intro H. unfold log_ticks, log_ticks_gen. apply Z.leb_le in H. now rewrite H. Qed.
+Lemma log_ticks_degenerate b mn mx o : 1 <= o_max o -> (mn == mx)%Q -> log_ticks b mn mx o = TR_ticks [mn] [mx].
+Proof.
+  intros H E. unfold log_ticks, log_ticks_gen. replace (o_max o <=? 0) with false by (symmetry; apply Z.leb_gt; lia).
+  apply Qeqb_true in E. now rewrite E.
+Qed.
+Lemma log_ticks_proper b mn mx o : 1 <= o_max o -> ~ (mn == mx)%Q ->
+  log_ticks b mn mx o =
+  match find_level o (log_count (log_e b mn mx) false) 0 with
+  | FL_ok l => TR_ticks (log_ticks_at' b (log_e b mn mx) (lf_neg mn mx) (lf_emin mn mx) (lf_emax mn mx) false l)
+                        (log_ticks_at' b (log_e b mn mx) (lf_neg mn mx) (lf_emin mn mx) (lf_emax mn mx) false (l - 1))
+  | _ => TR_none
+  end.
+Proof.
+  intros H Hn. unfold log_ticks, log_ticks_gen. replace (o_max o <=? 0) with false by (symmetry; apply Z.leb_gt; lia).
+  assert (E1 : Qeqb mn mx = false) by (destruct (Qeqb mn mx) eqn:E; [gb_bool; contradiction | reflexivity]).
+  rewrite E1, (log_fold_proj mn mx). reflexivity.
+Qed.
+
+(* what Ticks(o) on the Log domain [mn, mx] must return, stated on the observed lists *)
+Definition log_ticks_spec (tolv : Q -> Q) (b : Z) (o : tickopts) (mn mx : Q) (st : Z) (major : list xreal) (minor : option (list xreal)) : Prop :=
+  st = 0 /\
+  let none := major = [] /\ (forall m, minor = Some m -> m = []) in
+  (o_max o <= 0 -> none) /\
+  (1 <= o_max o -> (mn == mx)%Q -> obs_close tolv [mn] major /\ forall m, minor = Some m -> obs_close tolv [mx] m) /\
+  (1 <= o_max o -> ~ (mn == mx)%Q ->
+     let e := log_e b mn mx in let neg := lf_neg mn mx in let emin := lf_emin mn mx in let emax := lf_emax mn mx in
+     (level_bounds o = None -> none) /\
+     forall lo hi, level_bounds o = Some (lo, hi) -> 2 <= b -> le_in_lo e <= le_in_hi e + 1 -> log_count e false 0 <= MAXINT ->
+       (exists l L n, lo <= l <= hi /\ log_level_ok b e neg emin emax l L n /\ n <= o_max o /\ obs_close tolv L major /\
+           (forall l' L' n', lo <= l' < l -> log_level_ok b e neg emin emax l' L' n' -> o_max o < n') /\
+           (forall m, minor = Some m -> exists Lm nm, log_level_ok b e neg emin emax (l - 1) Lm nm /\ obs_close tolv Lm m))
+       \/ (none /\ forall l L n, lo <= l <= hi -> log_level_ok b e neg emin emax l L n -> o_max o < n)).
+
+Lemma log_ticks_obs_spec tolv b o mn mx st major minor :
+  ticks_obs tolv (log_ticks b mn mx o) st major minor -> log_ticks_spec tolv b o mn mx st major minor.
+Proof.
+  intro H. unfold log_ticks_spec. cbv zeta.
+  assert (NP : log_ticks b mn mx o <> TR_panic).
+  { unfold log_ticks, log_ticks_gen. destruct (o_max o <=? 0); [discriminate|]. destruct (Qeqb mn mx); [discriminate|].
+    destruct (log_fold mn mx) as [[n a] c]. destruct (find_level o _ 0); discriminate. }
+  assert (St : st = 0) by (destruct (log_ticks b mn mx o); [contradiction | exact (proj1 H) | exact (proj1 H)]).
+  split; [exact St|]. split; [|split].
+  - intro Hm. rewrite (log_ticks_nonpos b mn mx o Hm) in H. exact (proj2 H).
+  - intros Hm E. rewrite (log_ticks_degenerate b mn mx o Hm E) in H. exact (proj2 H).
+  - intros Hm Hn. rewrite (log_ticks_proper b mn mx o Hm Hn) in H.
+    set (e := log_e b mn mx) in *. set (neg := lf_neg mn mx) in *. set (emin := lf_emin mn mx) in *. set (emax := lf_emax mn mx) in *.
+    split.
+    + intro Hb. unfold find_level in H. rewrite Hb in H. exact (proj2 H).
+    + intros lo hi Hb Hb2 He H0.
+      pose proof (log_count_nonincreasing e He lo hi H0) as Mono.
+      destruct (find_level o (log_count e false) 0) as [l| |] eqn:F.
+      * left. destruct (find_level_lowest o _ 0 lo hi l Hb Mono F) as (B & Fit & Low). destruct H as (_ & Hma & Hmi).
+        exists l, (log_ticks_at' b e neg emin emax false l), (log_count e false l).
+        split; [exact B|]. split; [now apply log_level_ok_at|]. split; [exact Fit|]. split; [exact Hma|]. split.
+        -- intros l' L' n' Hl' HL'. rewrite (log_level_ok_count b e neg emin emax l' L' n' Hb2 He HL'). now apply Low.
+        -- intros m Em. exists (log_ticks_at' b e neg emin emax false (l - 1)), (log_count e false (l - 1)).
+           split; [now apply log_level_ok_at | now apply Hmi].
+      * right. split; [exact (proj2 H)|].
+        assert (Mono' : forall lo0 hi0, level_bounds o = Some (lo0, hi0) -> nonincreasing (log_count e false) lo0 hi0).
+        { intros lo0 hi0 Hb0. rewrite Hb in Hb0. injection Hb0 as <- <-. exact Mono. }
+        destruct (proj1 (find_level_fails_iff o _ 0 Mono') F) as [A|[A|(lo' & hi' & A & N)]]; [lia | congruence |].
+        rewrite Hb in A. injection A as <- <-. intros l L n Hl HL.
+        rewrite (log_level_ok_count b e neg emin emax l L n Hb2 He HL). now apply N.
+      * exfalso. exact (find_level_no_fuel o _ 0 F).
+Qed.
+
+Theorem log_ticks_E_sound tolv o b mn mx st major minor :
+  log_ticks_E tolv o b mn mx st major minor = true -> log_ticks_spec tolv b o mn mx st major minor.
+Proof.
+  intro H. unfold log_ticks_E, log_rt, log_e in H.
+  rewrite (log_ticks_from_eq b mn mx o _ _ _ (log_fold_proj mn mx)) in H. apply ticks_exact_sound in H.
+  now apply log_ticks_obs_spec.
+Qed.
+
+(* CountTicks(l) / TicksAtLevel(l) *)
+Definition log_level_spec (tolv : Q -> Q) (b : Z) (mn mx : Q) (lv : levobs) : Prop :=
+  let e := log_e b mn mx in
+  lv_st lv = 0 /\ (0 <= lv_level lv -> le_in_lo e <= le_in_hi e + 1 -> lv_count lv = Z.of_nat (length (lv_ticks lv))) /\
+  (2 <= b -> le_in_lo e <= le_in_hi e + 1 ->
+   exists L n, log_level_ok b e (lf_neg mn mx) (lf_emin mn mx) (lf_emax mn mx) (lv_level lv) L n /\ lv_count lv = n /\ obs_close tolv L (lv_ticks lv)).
+Lemma log_level_exact_sound tolv b mn mx lv :
+  log_level_exact b (log_e b mn mx) (lf_neg mn mx) (lf_emin mn mx) (lf_emax mn mx) tolv lv = true -> log_level_spec tolv b mn mx lv.
+Proof.
+  intro H. unfold log_level_exact in H. apply andb_prop in H. destruct H as [H H3]. apply andb_prop in H. destruct H as [H1 H2].
+  apply Z.eqb_eq in H1, H2. apply close_list_sound in H3. unfold log_level_spec. cbv zeta. split; [exact H1|]. split.
+  - intros Hl He. rewrite H2, (log_count_is_length b _ (lf_emin mn mx) (lf_emax mn mx) He _ Hl). f_equal.
+    rewrite (obs_close_length _ _ _ H3). unfold log_ticks_at'. destruct (lf_neg mn mx); [now rewrite neg_rev_length | reflexivity].
+  - intros Hb He. exists (log_ticks_at' b (log_e b mn mx) (lf_neg mn mx) (lf_emin mn mx) (lf_emax mn mx) false (lv_level lv)), (log_count (log_e b mn mx) false (lv_level lv)).
+    split; [now apply log_level_ok_at|]. auto.
+Qed.
